@@ -388,3 +388,48 @@ theorem L.castInt_formatInt (i : Int) : castInt (formatInt i) = .ok i := by
     simp [hall, hval, hne]
     rfl
 end Verif.C08
+
+namespace Verif.C08
+open Verif.Py Verif.Tables
+
+theorem L.row_getIdx (r : Row) (i : Int) (hl : r.types.length = r.data.length) :
+    r.getIdx i = getIndex r.iter i := by
+  unfold Row.getIdx Row.iter getIndex
+  simp only [List.length_zipWith, hl, Nat.min_self]
+  generalize (if i < 0 then i + (r.data.length : Int) else i) = j
+  by_cases hj : j < 0
+  · simp [hj]
+  · simp only [hj, if_false, List.getElem?_zipWith]
+    cases r.types[j.toNat]? <;> cases r.data[j.toNat]? <;> rfl
+
+theorem filterMap_zipWith_idx {α β γ} (f : α → β → γ) (xs : List α) (ys : List β) (is : List Int)
+    (hl : xs.length = ys.length) :
+    is.filterMap (fun i => (List.zipWith f xs ys)[i.toNat]?) =
+      List.zipWith f (is.filterMap (fun i => xs[i.toNat]?)) (is.filterMap (fun i => ys[i.toNat]?)) := by
+  induction is with
+  | nil => simp
+  | cons i is ih =>
+    rw [List.filterMap_cons, List.filterMap_cons, List.filterMap_cons, ih, List.getElem?_zipWith']
+    by_cases h : i.toNat < xs.length
+    · have h' : i.toNat < ys.length := hl ▸ h
+      rw [List.getElem?_eq_getElem h, List.getElem?_eq_getElem h']
+      simp
+    · have h' : ¬ i.toNat < ys.length := hl ▸ h
+      rw [List.getElem?_eq_none (Nat.le_of_not_lt h), List.getElem?_eq_none (Nat.le_of_not_lt h')]
+      simp
+
+theorem L.row_getSlice (r : Row) (sl : Slice) (hl : r.types.length = r.data.length) :
+    r.getSlice sl = Py.getSlice r.iter sl := by
+  unfold Row.getSlice Row.iter Py.getSlice
+  simp only [List.length_zipWith, hl, Nat.min_self]
+  cases h : sliceIndices sl r.data.length with
+  | none => simp
+  | some v =>
+    obtain ⟨a, b, st⟩ := v
+    simp only [filterMap_zipWith_idx cast r.types r.data _ hl]
+
+theorem L.mkRow_lengths (ts : List DType) (ns : List (List Char)) (vs : List Val) (hl : ts.length = vs.length) :
+    (mkRow ts ns vs).types.length = (mkRow ts ns vs).data.length := by
+  simp [mkRow, hl]
+
+end Verif.C08
